@@ -102,6 +102,30 @@ def respond (line : String) : String :=
         | some (v, p) => s!"ok {v} {showRat p}"
         | none => "none"
     | _, _ => "bad-request"
+  | ["fmtgbp", x] =>
+    match parseRat? x with
+    | some r => "ok " ++ hex6 (Format.fmtGbp r).toList
+    | none => "bad-request"
+  | ["jsonmoney", lit] =>
+    -- decimal literal with optional sign: the scale is the number of fraction digits written
+    let neg := lit.startsWith "-"
+    let body := if neg then (lit.drop 1).toString else lit
+    match body.splitOn "." with
+    | [i] =>
+      match i.toNat? with
+      | some _ => "ok " ++ hex6 lit.toList
+      | none => "bad-request"
+    | [i, f] =>
+      match (i ++ f).toNat? with
+      | some n =>
+        let x : Rat := (if neg then -1 else 1) * ((n : Rat) / ((10 ^ f.length : Nat) : Rat))
+        "ok " ++ hex6 (Format.jsonMoney jsonMoneyHalfAway x f.length lit).toList
+      | none => "bad-request"
+    | _ => "bad-request"
+  | ["taxyearfmt", y] =>
+    match y.toNat? with
+    | some y => "ok " ++ hex6 (Format.fmtTaxYear y).toList
+    | none => "bad-request"
   | "spec" :: txs =>
     match parseAll parseTx? (txs.filter (· ≠ "")) with
     | none => "bad-request"
